@@ -230,8 +230,12 @@ class FuzzRun:
     def origin_variant(self, puppet):
         """ The claimed origin: the right one most of the time. """
         roll = self.rng.random()
-        if roll < 0.85:
+        if roll < 0.75:
             return puppet.origin
+        if roll < 0.85:
+            # an identifier the local instance does not know, with the right nick and address: the origin is resolved
+            # through the nick identifier, as Context.is_valid documents
+            return [f"alias-of-{puppet.nick}.sim:{puppet.spec['port']}", puppet.nick, list(puppet.origin[2])]
         if roll < 0.90:
             # right identifier, wrong address
             return [puppet.identifier, puppet.nick, ['10.9.9.9', puppet.spec['port']]]
